@@ -100,16 +100,21 @@ func newC18World(c *sim.Case, n int, storeMode string, timeouts [][2]int, discov
 		c.Class("discovery:one-host-query-selected")
 	}
 	// cookie-name prefixes: unrelated, or nested (one a prefix of the other), or one filter on the default name
-	prefixes := [][]string{{"f0", "f1", "f2"}, {"app", "app-admin", "app-admin-x"}, {"", "f1", "f2"}, {"tenant", "", "tenant-b"}}[sim.Pick(c, "prefix-shape", 4)]
+	prefixes := [][]string{{"f0", "f1", "f2"}, {"app", "app-admin", "app-admin-x"}, {"", "f1", "f2"}, {"tenant", "", "tenant-b"},
+		// names as deployments have them: long, and alike for most of their length
+		{"prod-europe-west1-gke-payments-checkout-web", "prod-europe-west1-gke-payments-checkout-api", "prod-europe-west1-gke-payments-checkout"}}[sim.Pick(c, "prefix-shape", 5)]
+	for i := 3; i < n; i++ {
+		prefixes = append(prefixes, fmt.Sprintf("%s-%d", prefixes[1], i))
+	}
 	for i := 0; i < n; i++ {
 		f := &c18Filter{name: fmt.Sprintf("f%d", i), prefix: prefixes[i], abs: time.Duration(timeouts[i][0]) * time.Second, idle: time.Duration(timeouts[i][1]) * time.Second}
 		f.idp = sim.NewIdP("client-"+f.name, "secret-"+f.name, time.Now)
 		if binary {
 			w.stops = append(w.stops, f.idp.ServeOnLoopback())
 		}
-		f.idp.SignKey = sim.Keys()[i]
+		f.idp.SignKey = sim.Keys()[i%4]
 		f.idp.Keys = []*sim.Key{f.idp.SignKey}
-		f.idp.Tag = "Zq" + f.name
+		f.idp.Tag = "Zq" + f.name + "q"
 		f.store = "memory"
 		if storeMode == "redis" || storeMode == "redis-dbs" || (storeMode == "mixed" && i%2 == 1) || (storeMode == "mixed-redis-first" && i%2 == 0) {
 			f.store = "redis"
@@ -265,7 +270,7 @@ func (w *c18World) login(f *c18Filter, user string) string {
 }
 
 func c18Prop(c *sim.Case) {
-	n := 2 + sim.Pick(c, "nfilters", 2)
+	n := 2 + sim.Tail(c, "nfilters", 2, 13) // two or three, sometimes a dozen and more (a chain per host)
 	storeMode := sim.PickStr(c, "stores", "memory", "redis", "mixed", "redis-dbs", "mixed-redis-first")
 	var timeouts [][2]int
 	for i := 0; i < n; i++ {
@@ -314,7 +319,7 @@ func c18Prop(c *sim.Case) {
 		}
 		// tokens forwarded by B must come from B's provider
 		for _, hv := range r.Headers {
-			if strings.Contains(hv.V, "Zq"+A.name) {
+			if strings.Contains(hv.V, "Zq"+A.name+"q") {
 				c.Violation("foreign-tokens-forwarded", "%s: filter %s forwards a token issued by %s's provider", what, B.name, A.name)
 			}
 		}
@@ -322,7 +327,21 @@ func c18Prop(c *sim.Case) {
 	nt := false
 	steps := 1 + sim.Pick(c, "nsteps", 5)
 	for i := 0; i < steps; i++ {
-		switch sim.Weighted(c, "attack", 4, 4, 4, 4, 4, 4, 1, 3) {
+		wTour := 0
+		if n > 3 {
+			wTour = 6
+		}
+		switch sim.Weighted(c, "attack", 4, 4, 4, 4, 4, 4, 1, 3, wTour) {
+		case 8: // someone starts a login at every filter in turn: each is sent to ITS provider with ITS client id
+			for _, f := range w.fs {
+				if sid, cb := w.start(f, "tourist"); cb == "" {
+					c.Violation("login-redirect-of-another-filter", "a login started at filter %s (one of %d) was not accepted by that filter's provider: %s", f.name, n, w.why)
+				} else {
+					createdBy[sid] = f
+				}
+			}
+			nt = true
+			c.Class("tour-of-all-filters")
 		case 7: // a browser that holds sessions at both filters logs out at B: A's session and A's cookie are none of B's business
 			sidB := w.login(B, "erin")
 			if sidB == "" {
@@ -384,6 +403,9 @@ func c18Prop(c *sim.Case) {
 				c.Violation("own-session-not-honoured", "filter %s does not honour its own session after a successful refresh: %v", B.name, r)
 			}
 		case 5: // a token signed with A's provider key arrives through B's token endpoint: B must verify with ITS key set
+			if A.idp.SignKey == B.idp.SignKey {
+				continue // with more than four filters some share a test key
+			}
 			keyA := A.idp.SignKey
 			B.idp.Push(&sim.Behaviour{Name: "signed-with-other-filters-key", Mutate: func(p *sim.IdP, honest string, cl map[string]any, _ *sim.TokenCall) string {
 				return sim.HonestToken(keyA.With(p.SignKey.Kid, ""), cl)
@@ -440,6 +462,10 @@ func c18Prop(c *sim.Case) {
 			judge("B's session id under A's name sent to A", func() *sim.Resp { B, A = A, B; return w.check(B, "/app", B.cookieName()+"="+sidB) }(), sidB)
 			B, A = A, B
 		}
+	}
+	// whatever happened at the other filters, A still knows the session it created
+	if r := w.check(A, "/app", A.cookieName()+"="+sidA); !r.OK && sidA != "" {
+		c.Violation("own-session-not-honoured", "at the end of the history filter %s no longer honours the session it created: %v", A.name, r)
 	}
 	if w.foreignProxy != "" {
 		c.Violation("traffic-through-foreign-proxy", "%s: a filter's provider traffic (codes, client credentials, tokens) must use its own proxy_uri", w.foreignProxy)
